@@ -13,7 +13,8 @@ Local Open Scope nat_scope.
 Inductive inj :=
 | InjPoint (p n : nat)       (* when the Run goroutine passes schedule point p for the n-th time *)
 | InjHandler (n : nat)       (* inside the n-th handler call *)
-| InjFactory (n : nat)       (* inside the n-th factory call (eternal) / the first factory call that gives a source (joining) *)
+| InjFactory (n : nat)       (* inside the n-th factory call (eternal) / joining: n = 1 the first factory call that gives a source,
+                                n >= 2 the live-factory call of the join *)
 | InjIdle                    (* when nothing moves any more *)
 | InjRandom.                 (* uncontrolled timing: the schedule is not known *)
 
@@ -193,7 +194,11 @@ Definition jn_model (lf fa : bool) (fs : list Jn.fev) (ls : list iev) (i : inj) 
   let f := 6 * (length fs + length ls) + 40 in
   let s0 := Jn.init fs ls in
   let s1 := match i with
-            | InjFactory _ =>
+            | InjFactory n =>
+                if Nat.leb 2 n
+                then (* inside the live-factory call of the JOIN (seeded mutant C12-m8) *)
+                     until (Jn.step c) (fun s => match Jn.pcr s with Jn.PInJoinF => true | _ => false end) Jn.TRun f s0
+                else
                 (* inside the first factory call that gives a source = before the step that makes that call *)
                 if lf then s0 else if fa then Jn.step c s0 Jn.TRun else until (Jn.step c) never Jn.TRun f s0
             | _ => until (Jn.step c) (jn_cond i) Jn.TRun f s0
